@@ -24,34 +24,23 @@ use core::task::{Context, Poll};
 
 const FOREIGN_PREFIX: [u8; 12] = [0x77; 12];
 
-// @check props=C03 tier=quick
-// @desc soundness kernel: a writer with 1-3 matched reader proxies (symbolic RELIABLE/BEST_EFFORT) receives two arbitrary ACKNACKs (source prefix of any proxy or a foreign one, reader id / writer id right or wrong, symbolic base >= 1 and count). on_acknack_submessage_received accepts one iff it names this writer and a matched RELIABLE proxy and its count is fresh for that proxy, and then returns base-1; a ghost acknowledgement level per proxy (max of the accepted base-1, initially 0) is kept by the harness. Afterwards is_change_acknowledged(sn) is true IF AND ONLY IF every RELIABLE proxy's level is >= sn, for every sn: a success never precedes the acknowledgement by every matched reliable reader, and best-effort readers never block
-// @bounds 1-3 reader proxies; two ACKNACK deliveries; base in [1, i64::MAX], count full i32, sn full i64; writer history empty (is_change_acknowledged takes the sequence number as its argument and does not read the history)
-// @assume ACKNACK readerSNState.base >= 1 (RTPS 8.3.5.5: sequence numbers are positive; `base - 1` on i64::MIN is an arithmetic overflow in the handler) and an empty bitmap (requested changes are C01's subject)
-// @enc RtpsStatefulWriter::is_change_acknowledged
-// @enc RtpsStatefulWriter::on_acknack_submessage_received
-// @enc RtpsStatefulWriter::add_matched_reader
-// @enc RtpsReaderProxy::acked_changes_set
-// @enc RtpsReaderProxy::unacked_changes
-#[kani::proof]
-#[kani::unwind(5)]
-fn c03_kernel_acked_by_all_reliable() {
-    s1::link_drop_glue();
+fn kernel(n: usize, deliveries: usize) {
     let wguid = s1::writer_guid(0, 0);
     let mut w = RtpsStatefulWriter::new(wguid, 1344);
-    let n: usize = kani::any();
-    kani::assume(n >= 1 && n <= 3);
     let rel: [bool; 3] = kani::any();
-    let mut i = 0;
-    while i < n {
-        w.add_matched_reader(s1::rtps_reader_proxy(s1::remote_reader_guid(i as u8 + 1, 1), rel[i]));
-        i += 1;
+    // n is a constant of the harness: the proxies are added by straight-line code
+    w.add_matched_reader(s1::rtps_reader_proxy(s1::remote_reader_guid(1, 1), rel[0]));
+    if n >= 2 {
+        w.add_matched_reader(s1::rtps_reader_proxy(s1::remote_reader_guid(2, 1), rel[1]));
+    }
+    if n >= 3 {
+        w.add_matched_reader(s1::rtps_reader_proxy(s1::remote_reader_guid(3, 1), rel[2]));
     }
     let mut level = [0i64; 3];
     let mut last_count = [0i32; 3];
     let mut accepted_any = false;
     let mut k = 0;
-    while k < 2 {
+    while k < deliveries {
         let src: usize = kani::any();
         kani::assume(src <= 3);
         let rid_ok: bool = kani::any();
@@ -87,10 +76,55 @@ fn c03_kernel_acked_by_all_reliable() {
     }
     let got = w.is_change_acknowledged(sn);
     assert!(got == expect, "C03: is_change_acknowledged(sn) iff every matched RELIABLE reader acknowledged >= sn");
-    kani::cover!(got && sn >= 2 && n == 3 && rel[0] && rel[1], "acknowledged by two reliable readers");
-    kani::cover!(!got && accepted_any, "an accepted ACKNACK that does not cover sn");
-    kani::cover!(got && !rel[0] && n == 1 && sn > 0, "best-effort reader never blocks");
+    if deliveries > 0 {
+        kani::cover!(got && sn >= 2 && rel[0], "acknowledged by a reliable reader");
+        kani::cover!(!got && accepted_any, "an accepted ACKNACK that does not cover sn");
+    } else {
+        kani::cover!(!got && !rel[0] && rel[n - 1], "blocked by the last reader only");
+    }
+    kani::cover!(got && !rel[0] && !rel[1] && !rel[2] && sn > 0, "best-effort readers never block");
     core::mem::forget(w);
+}
+
+// @check props=C03 tier=quick
+// @desc soundness kernel, acknowledgement level of one proxy: a writer with ONE matched reader proxy (symbolic RELIABLE/BEST_EFFORT) receives two arbitrary ACKNACKs (source prefix of the proxy, of another participant or a foreign one, reader id / writer id right or wrong, symbolic base >= 1 and count). on_acknack_submessage_received accepts one iff it names this writer and the matched RELIABLE proxy and its count is fresh (greater than the last accepted count), and then returns base-1; the harness keeps the ghost level (max of the accepted base-1, initially 0). Afterwards is_change_acknowledged(sn) is true IF AND ONLY IF the proxy is best-effort or its level is >= sn, for every sn: the level only comes from base-1 of a fresh ACKNACK of that very reader, never decreases, and a success never precedes it
+// @bounds 1 reader proxy; two ACKNACK deliveries; base in [1, i64::MAX], count full i32, sn full i64; writer history empty (is_change_acknowledged takes the sequence number as its argument and does not read the history)
+// @assume ACKNACK readerSNState.base >= 1 (RTPS 8.3.5.5: sequence numbers are positive; `base - 1` on i64::MIN is an arithmetic overflow in the handler) and an empty bitmap (requested changes are C01's subject)
+// @enc RtpsStatefulWriter::is_change_acknowledged
+// @enc RtpsStatefulWriter::on_acknack_submessage_received
+// @enc RtpsStatefulWriter::add_matched_reader
+// @enc RtpsReaderProxy::acked_changes_set
+// @enc RtpsReaderProxy::unacked_changes
+#[kani::proof]
+#[kani::unwind(4)]
+fn c03_kernel_one_proxy() {
+    s1::link_drop_glue();
+    kernel(1, 2);
+}
+
+// @check props=C03 tier=quick
+// @desc soundness kernel, quantification over the matched readers: a writer with 3 matched reader proxies of symbolic reliability, none of which has acknowledged anything: is_change_acknowledged(sn) is true IF AND ONLY IF sn <= 0 or no proxy is RELIABLE: every reliable reader blocks, best-effort readers never do
+// @bounds 3 reader proxies; no ACKNACK delivered; sn full i64
+// @enc RtpsStatefulWriter::is_change_acknowledged
+// @enc RtpsStatefulWriter::add_matched_reader
+#[kani::proof]
+#[kani::unwind(5)]
+fn c03_kernel_every_reliable_reader() {
+    s1::link_drop_glue();
+    kernel(3, 0);
+}
+
+// @check props=C03 tier=thorough
+// @desc soundness kernel as c03_kernel_one_proxy with 2 matched reader proxies and one arbitrary ACKNACK delivery (the proxy is then selected through a symbolic pointer)
+// @bounds 2 reader proxies; one ACKNACK delivery; base in [1, i64::MAX], count full i32, sn full i64
+// @assume ACKNACK readerSNState.base >= 1 and an empty bitmap
+// @enc RtpsStatefulWriter::is_change_acknowledged
+// @enc RtpsStatefulWriter::on_acknack_submessage_received
+#[kani::proof]
+#[kani::unwind(4)]
+fn c03_kernel_two_proxies() {
+    s1::link_drop_glue();
+    kernel(2, 1);
 }
 
 // ---- participant level ---------------------------------------------------------------------------------------
